@@ -625,6 +625,7 @@ func checkC16(c *Check) {
 	transportIsOwn(c, "C16.R4")
 	responseFreshPerCheck(c, "C16.R4", R)
 	noUnsafeSharedDependencyObject(c, "C16.R1", R)
+	packageStateObjectsNotWritten(c, "C16.R2", R)
 	gatesAreOpened(c, "C16.R3")
 	mutexOwnersHavePointerReceivers(c, "C16.R2")
 	cacheEntriesPublishedComplete(c, "C16.R2")
@@ -632,6 +633,9 @@ func checkC16(c *Check) {
 	// carries no state (C06.R2 wiring, C06.R3 independence): a generator shared by concurrent checks with a
 	// scratch buffer of its own is a data race on the identifiers themselves
 	if c.ID == "C16" {
+		// "without deadlock": a function that runs with the store mutex held does not call (directly or through
+		// helpers) a function that acquires the same non-reentrant mutex (C12.R1 relock)
+		importObls(c, "C12", checkC12, "C16.R3", func(o *Obligation) bool { return strings.HasPrefix(o.Key, "C12.R1/relock") })
 		importObls(c, "C06", checkC06, "C16.R4", func(o *Obligation) bool {
 			return strings.HasPrefix(o.Key, "C06.R2/wiring") || strings.HasPrefix(o.Key, "C06.R3/stateless") || strings.HasPrefix(o.Key, "C06.R3/no-state")
 		})
@@ -1111,4 +1115,76 @@ func mutexOwnersHavePointerReceivers(c *Check, rule string) {
 		}
 	}
 	c.Obl(n >= 3, rule, "mutex-owners", "-", fmt.Sprintf("%d own types contain a mutex", n), "own types with a mutex not found (anchor lost)")
+}
+
+// packageStateObjectsNotWritten: an object obtained from package-level state — a package-level variable, a map or
+// sync.Map held by one (a memo of parsed URLs, a pool of templates) — is shared by every check that obtains it. A
+// field store through such a pointer in a function that checks run (the login redirect filling in RawQuery of a
+// memoised *url.URL) is a write/write and write/read race on that object, and one user's values surface in
+// another user's answer. Own helpers that hand the object out are followed (two levels).
+func packageStateObjectsNotWritten(c *Check, rule string, R *Roles) {
+	P := c.P
+	fromPkgState := func(v ssa.Value) string {
+		for _, l := range LeavesInl(v, leafOpts{noConcat: true}, 2, func(f *ssa.Function) bool { return !isOwnPath(pkgPathOf(f)) }) {
+			l = resolveCell(stripConv(l))
+			if ta, isTA := l.(*ssa.TypeAssert); isTA {
+				l = resolveCell(stripConv(ta.X))
+			}
+			if ex, isE := l.(*ssa.Extract); isE {
+				if cl, isC := ex.Tuple.(*ssa.Call); isC && cl.Common().StaticCallee() != nil {
+					switch funcID(calleeOf(cl).Obj) {
+					case "sync.Map.Load", "sync.Map.LoadOrStore", "sync.Map.LoadAndDelete", "sync.Map.Swap":
+						if len(cl.Common().Args) > 0 {
+							if _, isG := stripConv(cl.Common().Args[0]).(*ssa.Global); isG {
+								return "a value of the package-level sync.Map " + descDepth(cl.Common().Args[0], 1)
+							}
+						}
+					}
+				}
+				if lk, isL := ex.Tuple.(*ssa.Lookup); isL {
+					l = lk
+				}
+			}
+			if lk, isL := l.(*ssa.Lookup); isL {
+				if u, isU := resolveCell(stripConv(lk.X)).(*ssa.UnOp); isU {
+					if g, isG := u.X.(*ssa.Global); isG && g.Pkg != nil && isOwnPath(g.Pkg.Pkg.Path()) {
+						return "an element of the package-level map " + g.Name()
+					}
+				}
+			}
+			if u, isU := l.(*ssa.UnOp); isU && u.Op == token.MUL {
+				if g, isG := u.X.(*ssa.Global); isG && g.Pkg != nil && isOwnPath(g.Pkg.Pkg.Path()) {
+					if _, isPtr := g.Type().(*types.Pointer).Elem().Underlying().(*types.Pointer); isPtr {
+						return "the object held by the package-level variable " + g.Name()
+					}
+				}
+			}
+		}
+		return ""
+	}
+	n := 0
+	for _, fn := range R.HandlerFuncs {
+		for _, b := range fn.Blocks {
+			for _, ins := range b.Instrs {
+				st, ok := ins.(*ssa.Store)
+				if !ok {
+					continue
+				}
+				fa, isF := st.Addr.(*ssa.FieldAddr)
+				if !isF {
+					continue
+				}
+				if _, isAlloc := resolveCell(stripConv(fa.X)).(*ssa.Alloc); isAlloc {
+					continue
+				}
+				n++
+				if src := fromPkgState(fa.X); src != "" {
+					c.Fail(rule, "package-state-object-written/"+fnKey(fn)+"/"+fieldAddrID(fa), P.Pos(st.Pos()),
+						"field "+fieldAddrID(fa)+" is written through a pointer that is "+src+": every check that obtains the object writes and reads the same memory (data race; one request's values appear in another's answer)")
+				}
+			}
+		}
+	}
+	c.Obl(n >= 3, rule, "package-state-object-written/sites", "-", fmt.Sprintf("%d field stores through non-local pointers in the handler's functions: none through an object obtained from package-level state", n),
+		"no field stores found in the handler's functions (anchor lost)")
 }
